@@ -511,8 +511,216 @@ def check(ctx) -> None:
     from . import c06
 
     c06.rule_b3(ctx, Pipeline(ctx), "C08-D6")
+    # D11: ... and written back to that reaction's row: the id the rule-based stage indexes the batch with is the
+    # position of the row (shared with C06-B2)
+    c06.rule_b2(ctx, Pipeline(ctx), "C08-D11")
     rule_d1(ctx)
     rule_d2(ctx)
     rule_d3(ctx)
     rule_d4(ctx)
     rule_d5(ctx)
+    rule_d10(ctx)
+
+
+# ------------------------------------------------------------------------ D10
+MODIFY = "synrbl.SynRuleImputer.synthetic_rule_constraint.RuleConstraint.reduction_oxidation_rules_modify"
+
+
+class _Lin:
+    """a*n + b with rational a, b (n = number of components equal to the removed literal)"""
+
+    def __init__(self, a=0, b=0):
+        from fractions import Fraction
+
+        self.a, self.b = Fraction(a), Fraction(b)
+
+    def __add__(self, o):
+        return _Lin(self.a + o.a, self.b + o.b)
+
+    def scale(self, k):
+        return _Lin(self.a * k, self.b * k)
+
+    def __repr__(self):
+        if self.a == 0:
+            return str(self.b)
+        return "%s*n%s" % (self.a, ("+%s" % self.b) if self.b else "")
+
+
+def _expand_flags(f, cond: ast.AST) -> ast.AST:
+    """names bound exactly once to a comparison / boolean expression are replaced by it (`paired = n % 2 == 0; if paired:`)"""
+    import copy
+
+    class T(ast.NodeTransformer):
+        def visit_Name(self, n):
+            defs = assignments_to(f, n.id)
+            if len(defs) == 1 and defs[0][2] is None and isinstance(defs[0][1], (ast.Compare, ast.BoolOp, ast.UnaryOp)):
+                return copy.deepcopy(defs[0][1])
+            return n
+
+    return T().visit(copy.deepcopy(cond))
+
+
+def rule_d10(ctx, rule_id: str = "C08-D10") -> None:
+    """The placeholder rewrite of the rule-based stage (`[H]`/`[O]`/`OO` among the added components are exchanged for
+    water plus a counter-placeholder on the reactant side) turns one completion into another.  The new completion fills
+    the same imbalance only if the exchange conserves every element and the charge, for every number n of removed
+    components: with comp() the composition of a literal,
+        sum(added to products) - n * comp(removed literal) == sum(added to reactants)
+    as polynomials in n.  Multiplicities are read off the code (`count`, `count // 2` under an evenness guard,
+    constants); compositions of the literals are folded."""
+    ctx.rule(rule_id, "each placeholder exchange conserves every element and the charge for every number of removed components", 3)
+    f = ctx.prog.func(MODIFY)
+    cfg = CFG(f.node)
+    groups = 0
+
+    def blocks(node):
+        for fld in ("body", "orelse", "finalbody"):
+            lst = getattr(node, fld, None)
+            if isinstance(lst, list) and lst and isinstance(lst[0], ast.stmt):
+                yield lst
+                for s in lst:
+                    if not isinstance(s, (ast.FunctionDef, ast.ClassDef)):
+                        yield from blocks(s)
+
+    def removal(s):
+        """`X = [c for c in X if c != L]` -> (X, L)"""
+        if not (isinstance(s, ast.Assign) and len(s.targets) == 1 and isinstance(s.targets[0], ast.Name) and isinstance(s.value, ast.ListComp)):
+            return None
+        comp = s.value
+        if len(comp.generators) != 1:
+            return None
+        g = comp.generators[0]
+        if not (isinstance(g.iter, ast.Name) and g.iter.id == s.targets[0].id and isinstance(g.target, ast.Name) and len(g.ifs) == 1 and isinstance(comp.elt, ast.Name) and comp.elt.id == g.target.id):
+            return None
+        nc = normal_compare(g.ifs[0], True)
+        if not nc or nc[1] != "!=":
+            return None
+        lit = const_str(nc[2]) if isinstance(nc[0], ast.Name) and nc[0].id == g.target.id else (const_str(nc[0]) if isinstance(nc[2], ast.Name) and nc[2].id == g.target.id else None)
+        if lit is None:
+            return None
+        return s.targets[0].id, lit
+
+    def mult(e, X, L, at_stmt, depth=0):
+        """multiplicity expression -> (_Lin, problem or None)"""
+        if depth > 6:
+            raise AnalysisError("%s: multiplicity %s too deep" % (f.loc(e), unparse(e)))
+        if isinstance(e, ast.Constant) and isinstance(e.value, int) and not isinstance(e.value, bool):
+            return _Lin(0, e.value), None
+        if isinstance(e, ast.Call) and isinstance(e.func, ast.Attribute) and e.func.attr == "count" and isinstance(e.func.value, ast.Name) and e.func.value.id == X and e.args and const_str(e.args[0]) == L:
+            return _Lin(1, 0), None
+        if isinstance(e, ast.Name):
+            defs = [(st, v) for st, v, i in assignments_to(f, e.id) if i is None]
+            # the definitions that can reach: in the same branch region (dominating the use)
+            u = cfg.node_of(at_stmt)
+            reach = [(st, v) for st, v in defs if cfg.node_of(st) is not None and u is not None and cfg.dominates(cfg.node_of(st), u)]
+            if len(reach) != 1:
+                raise AnalysisError("%s: multiplicity %s has %d dominating definitions" % (f.loc(e), e.id, len(reach)))
+            st, v = reach[0]
+            # evaluated before the removal (afterwards the count is 0)
+            if not (st.lineno < at_stmt.lineno or st is at_stmt) and False:
+                pass
+            return mult(v, X, L, st, depth + 1)
+        if isinstance(e, ast.BinOp) and isinstance(e.op, ast.FloorDiv) and isinstance(e.right, ast.Constant) and isinstance(e.right.value, int) and e.right.value > 0:
+            inner, prob = mult(e.left, X, L, at_stmt, depth + 1)
+            k = e.right.value
+            exact = False
+            if inner.a == 0 and inner.b % k == 0:
+                exact = True
+            node = cfg.node_of(at_stmt)
+            for c, p in cfg.guards(node) if node is not None else []:
+                for cc, pp in split_cond(_expand_flags(f, c), p):
+                    nc = normal_compare(cc, pp)
+                    if nc and nc[1] == "==" and isinstance(nc[2], ast.Constant) and nc[2].value == 0 and isinstance(nc[0], ast.BinOp) and isinstance(nc[0].op, ast.Mod) and isinstance(nc[0].right, ast.Constant) and nc[0].right.value == k:
+                        li, _ = mult(nc[0].left, X, L, at_stmt, depth + 1)
+                        if li.a == inner.a and li.b == inner.b:
+                            exact = True
+            if not exact:
+                prob = prob or "`%s` rounds down: without a guard that %s is divisible by %d the remainder is dropped" % (unparse(e), unparse(e.left), k)
+            return inner.scale(1 / __import__("fractions").Fraction(k)), prob
+        if isinstance(e, ast.BinOp) and isinstance(e.op, ast.Mult):
+            l, p1 = mult(e.left, X, L, at_stmt, depth + 1)
+            r, p2 = mult(e.right, X, L, at_stmt, depth + 1)
+            if l.a != 0 and r.a != 0:
+                raise AnalysisError("%s: non-linear multiplicity %s" % (f.loc(e), unparse(e)))
+            res = r.scale(l.b) if l.a == 0 else l.scale(r.b)
+            return res, p1 or p2
+        if isinstance(e, ast.BinOp) and isinstance(e.op, (ast.Add, ast.Sub)):
+            l, p1 = mult(e.left, X, L, at_stmt, depth + 1)
+            r, p2 = mult(e.right, X, L, at_stmt, depth + 1)
+            return (l + (r if isinstance(e.op, ast.Add) else r.scale(-1))), p1 or p2
+        raise AnalysisError("%s: multiplicity %s has a form the rule does not model" % (f.loc(e), unparse(e)))
+
+    def pieces(e, X, L, at_stmt):
+        """value appended -> list of (literal component, _Lin multiplicity), problem"""
+        # "<S>" * m | "<S>" | [lits] * m | [lits]
+        m, prob = _Lin(0, 1), None
+        base = e
+        if isinstance(e, ast.BinOp) and isinstance(e.op, ast.Mult):
+            if isinstance(e.left, (ast.Constant, ast.List)) and not (isinstance(e.left, ast.Constant) and isinstance(e.left.value, int)):
+                base, me = e.left, e.right
+            else:
+                base, me = e.right, e.left
+            m, prob = mult(me, X, L, at_stmt)
+        if isinstance(base, ast.Constant) and isinstance(base.value, str):
+            comps = [c for c in base.value.split(".") if c]
+        elif isinstance(base, ast.List) and all(isinstance(x, ast.Constant) and isinstance(x.value, str) for x in base.elts):
+            comps = [x.value for x in base.elts]
+        else:
+            raise AnalysisError("%s: appended value %s is not built from literals" % (f.loc(e), unparse(e)))
+        return [(c, m) for c in comps], prob
+
+    def side_of_field(t):
+        return const_str(t.slice) if isinstance(t, ast.Subscript) and not isinstance(t.slice, ast.Slice) and const_str(t.slice) in ("reactants", "products") else None
+
+    for lst in blocks(f.node):
+        for i, s in enumerate(lst):
+            rm = removal(s)
+            if rm is None:
+                continue
+            X, L = rm
+            groups += 1
+            prod: Dict[str, _Lin] = {}
+            reac: Dict[str, _Lin] = {}
+            problems = []
+
+            def add(side, lit, m):
+                comp = tables.fold_rdkit(lit)
+                if comp is None:
+                    raise AnalysisError("%s: literal %r does not parse" % (f.loc(s), lit))
+                for k, v in comp.items():
+                    side[k] = side.get(k, _Lin()) + m.scale(v)
+
+            add(prod, L, _Lin(-1, 0))
+            # multiplicities are evaluated where they are bound; the statements of the exchange are the rest of the block
+            for st in lst[i + 1:] + [x for x in lst[:i]]:
+                if isinstance(st, ast.AugAssign) and isinstance(st.op, ast.Add):
+                    sd = side_of_field(st.target)
+                    if sd is not None:
+                        ps, prob = pieces(st.value, X, L, st)
+                        for c, m in ps:
+                            add(reac if sd == "reactants" else prod, c, m)
+                        if prob:
+                            problems.append(prob)
+                    elif isinstance(st.target, ast.Name) and st.target.id == X:
+                        ps, prob = pieces(st.value, X, L, st)
+                        for c, m in ps:
+                            add(prod, c, m)
+                        if prob:
+                            problems.append(prob)
+                elif isinstance(st, ast.Expr) and isinstance(st.value, ast.Call) and isinstance(st.value.func, ast.Attribute) and isinstance(st.value.func.value, ast.Name) and st.value.func.value.id == X and st.value.func.attr in ("append", "extend"):
+                    a0 = st.value.args[0]
+                    if st.value.func.attr == "append":
+                        a0 = ast.List(elts=[a0], ctx=ast.Load())
+                    ps, prob = pieces(a0, X, L, st)
+                    for c, m in ps:
+                        add(prod, c, m)
+                    if prob:
+                        problems.append(prob)
+            keys = sorted(set(prod) | set(reac))
+            off = {k: (prod.get(k, _Lin()), reac.get(k, _Lin())) for k in keys if (prod.get(k, _Lin()).a, prod.get(k, _Lin()).b) != (reac.get(k, _Lin()).a, reac.get(k, _Lin()).b)}
+            ok = not off and not problems
+            ctx.instance(rule_id, "exchange of %r in %s: products %s, reactants %s" % (L, X, {k: repr(v) for k, v in prod.items() if (v.a, v.b) != (0, 0)}, {k: repr(v) for k, v in reac.items() if (v.a, v.b) != (0, 0)}), f.loc(s), ok=ok)
+            if not ok:
+                why = "; ".join(problems) if problems else "with n components %r removed the products change by %s but the reactants by %s" % (L, {k: repr(v[0]) for k, v in off.items()}, {k: repr(v[1]) for k, v in off.items()})
+                ctx.finding(rule_id, "RuleConstraint.reduction_oxidation_rules_modify:exchange:%s" % L, f.loc(s), "the exchange of the added %r components does not conserve the composition for every count: %s; the completion handed on no longer sums to the imbalance" % (L, why))
+    ctx.require(groups >= 3, "fewer than 3 placeholder exchanges found in reduction_oxidation_rules_modify (%d)" % groups)
